@@ -21,6 +21,8 @@ inductive SR (s : St) : Step → St → Prop
   | handler (k j who) : s.queue[k]? = some (j, who) →
       SR s (.handler k) (publish { s with queue := s.queue.eraseIdx k } j who)
   | store (k e) : s.pend[k]? = some e → SR s (.store k) { s with pend := s.pend.eraseIdx k, cache := e :: s.cache }
+  | drop (k e) : s.pend[k]? = some e → ((lookup s e.1).isSome || (s.pend.eraseIdx k).any (·.1 == e.1)) = true →
+      SR s (.drop k) { s with pend := s.pend.eraseIdx k }
   | saw : s.main = .waiting → s.flag = true → SR s .main { s with main := .saw }
   | read : s.main = .saw → SR s .main { s with main := .read s.slot }
   | raised (j who) : s.main = .read j → lookup s j = some who → SR s .main { s with main := .raised j who }
@@ -51,6 +53,14 @@ theorem step_sr {s s' : St} {t : Step} (h : step s t = some s') : SR s t s' := b
     split at h
     · cases h
     · rename_i e hq; cases h; exact .store k e hq
+  | drop k =>
+    simp only [step] at h
+    split at h
+    · cases h
+    · rename_i e hq
+      split at h
+      · rename_i hgd; cases h; exact .drop k e hq hgd
+      · cases h
   | main =>
     simp only [step] at h
     split at h
@@ -126,7 +136,7 @@ theorem step_lowers_rank (s s' : St) (t : Step) (h : step s t = some s') : rank 
     have hq := Nat.mul_add_one (s.jobs.length + 3) n
     simp only [rank, publish, List.length_append, List.length_map, hn, hn'] at hl ⊢
     omega
-  | store k e hq =>
+  | store k e hq | drop k e hq _ =>
     obtain ⟨n, hn, hn'⟩ := drop_len hq
     simp only [rank, hn, hn']; omega
   | saw hm hf => simp only [rank, hm]; omega
@@ -597,6 +607,33 @@ theorem inv_store {kinds jobs} {s : St} {k e} (hI : Inv kinds jobs s) (hq : s.pe
   · intro j' w hm
     exact List.mem_cons_of_mem _ (hI.mainRaised j' w hm)
 
+theorem inv_drop {kinds jobs} {s : St} {k e} (hI : Inv kinds jobs s) (hq : s.pend[k]? = some e)
+    (hgd : ((lookup s e.1).isSome || (s.pend.eraseIdx k).any (·.1 == e.1)) = true) :
+    Inv kinds jobs { s with pend := s.pend.eraseIdx k } := by
+  have pot : ∀ j', POT s j' → POT { s with pend := s.pend.eraseIdx k } j' := by
+    intro j' h
+    rcases h with h | ⟨w, h⟩ | h | h
+    · exact .inl h
+    · rcases List.getElem?_of_mem h with ⟨m, hm⟩
+      by_cases hmk : m = k
+      · subst hmk; rw [hq] at hm; cases hm
+        rcases Bool.or_eq_true_iff.mp hgd with hl | ha
+        · exact .inl (lookup_isSome.mp hl)
+        · rcases List.any_eq_true.mp ha with ⟨⟨j'', w'⟩, hx, hj⟩
+          simp only [beq_iff_eq] at hj
+          subst hj
+          exact .inr (.inl ⟨w', hx⟩)
+      · exact .inr (.inl ⟨w, List.mem_eraseIdx_iff_getElem?.mpr ⟨m, hmk, hm⟩⟩)
+    · exact .inr (.inr (.inl h))
+    · exact .inr (.inr (.inr h))
+  refine ⟨hI.jobs_eq, hI.valid, hI.queue, hI.cache, ?_, ?_, hI.flagW, hI.slot, hI.mainFlag, ?_, hI.mainRaised⟩
+  · intro j' w h
+    exact hI.stores j' w (List.mem_of_mem_eraseIdx h)
+  · intro n x hx hxt
+    exact pot _ (hI.pend n x hx hxt)
+  · intro j' hm
+    exact pot _ (hI.mainRead j' hm)
+
 theorem flag_slot {kinds jobs} {s : St} (hI : Inv kinds jobs s) (hf : s.flag = true) : POT s s.slot := by
   obtain ⟨n, x, hx, hxt, hxw⟩ := hI.flagW hf
   obtain ⟨m, y, hy, hyt, hyj⟩ := hI.slot n x hx hxt hxw
@@ -615,6 +652,7 @@ theorem inv_step {kinds jobs} {s s' : St} {t : Step} (hI : Inv kinds jobs s) (h 
   | publishAll i g rest hg ht => exact inv_sigNext (a := .publishAll) hI hg ht (by decide)
   | handler k j who hq => exact inv_handler hI hq
   | store k e hq => exact inv_store hI hq
+  | drop k e hq hgd => exact inv_drop hI hq hgd
   | saw hm hf =>
     exact ⟨hI.jobs_eq, hI.valid, hI.queue, hI.cache, hI.stores, hI.pend, hI.flagW, hI.slot, fun _ => hf,
       (fun j h => by cases h), (fun j w h => by cases h)⟩
